@@ -148,6 +148,7 @@ type Interp struct {
 	pending   []pendingAssert
 	asserted  []*sym.Term
 	constViolated bool
+	rs        *raceState
 	pc        []*sym.Term
 }
 
